@@ -122,7 +122,7 @@ func main() {
 			infraFail("unknown property %q", id)
 		}
 		c := NewCheck(p, id, *tier)
-		f(c)
+		runProp(c, f)
 		vd := *verif
 		if len(p.NormaliseLog) > 0 && c.Unlisted(*verif) > 0 {
 			// Two views of the same behaviour: the tree with the calls of new helpers expanded (p) and the tree as
@@ -133,7 +133,7 @@ func main() {
 				p0 = Load(*repo, *overlay, false)
 			}
 			c0 := NewCheck(p0, id, *tier)
-			f(c0)
+			runProp(c0, f)
 			n1, n0 := c.Unlisted(*verif), c0.Unlisted(*verif)
 			if n0 == 0 {
 				c0.Notes = append(c0.Notes, fmt.Sprintf("decided on the tree as written; with the calls of new helpers expanded %d obligations were not discharged (see normalise.go)", n1))
@@ -161,6 +161,22 @@ func main() {
 		}
 	}
 	os.Exit(rc)
+}
+
+// runProp runs one property's rules. A construct the rules are anchored in that the analysed tree no longer has (a
+// function, a closure found by what it calls, a type) leaves the property undecided in this view: reported as an open
+// obligation (the check fails closed with a VIOLATION line), not as an infrastructure failure.
+func runProp(c *Check, f propFunc) {
+	defer func() {
+		if r := recover(); r != nil {
+			u, ok := r.(unresolved)
+			if !ok {
+				panic(r)
+			}
+			c.Violated("R0", "anchor: "+string(u), "", "the analysed tree no longer contains this construct, which the rules of the property are anchored in: undecided reason=not-established")
+		}
+	}()
+	f(c)
 }
 
 // Dump prints, per block, the edge facts, calls and stores as the rules see them.
